@@ -55,6 +55,8 @@ class Broker:
         self.log = None                                    # recorder log of the running incarnation
         self.journal = []                                  # survives incarnations
         self.committed_failures = 0                        # how many upcoming committed() calls fail
+        self.fetch_failures = set()                        # indices (per incarnation) of assign() calls that fail
+        self.n_assign = 0
 
     def note(self, *a):
         self.journal.append(a)
@@ -130,6 +132,12 @@ class Consumer:
 
     def assign(self, tps):
         tp = tps[0]
+        k = self.b.n_assign
+        self.b.n_assign += 1
+        if k in self.b.fetch_failures:
+            # transient broker trouble while a batch is being fetched (only get_message_batch assigns)
+            self.b.note('assign_failed', tp.partition, tp.offset)
+            raise KafkaException('transient failure while fetching partition %d from offset %d' % (tp.partition, tp.offset))
         self.assigned = (tp.topic, tp.partition)
         self.pos = tp.offset
         self.b.note('assign', tp.partition, tp.offset)
